@@ -136,6 +136,9 @@ class CellRef:
 class OptExt: pass
 class Tup:
     def __init__(self, items): self.items = items
+class EnumV:
+    """a value of an enum whose variant is known on this path (Ok(x), Some(x), Continue(x), ...)"""
+    def __init__(self, adt, vi, items): self.adt, self.vi, self.items = adt, vi, items
 
 class Interp:
     def __init__(self, fns, models=None):
@@ -168,8 +171,11 @@ class Interp:
             if p["k"] == "deref":
                 if isinstance(v, CellRef): v = mem[v.arr][v.idx]
                 continue
+            if p["k"] == "downcast":
+                if isinstance(v, EnumV): continue
+                return None
             if p["k"] == "field":
-                if isinstance(v, Tup): v = v.items[p["i"]]
+                if isinstance(v, (Tup, EnumV)): v = v.items[p["i"]] if p["i"] < len(v.items) else None
                 elif v == "SELF": v = ("SELF." + p.get("name", "?"))
                 else: return None
             elif p["k"] == "constindex" or p["k"] == "index":
@@ -237,6 +243,11 @@ class Interp:
                 if rv["place"]["proj"] and rv["place"]["proj"][-1]["k"] == "deref": val = env.get(rv["place"]["local"])
                 if isinstance(val, str) or val is None:
                     val = self.read(rv["place"], env, mem)
+            elif k == "discr":
+                x = self.read(rv["place"], env, mem)
+                if isinstance(x, EnumV): val = BV.const(x.vi, 64)
+            elif k == "aggregate" and rv.get("agg") == "adt" and rv.get("adt", "").split("<")[0] in ("std::result::Result", "std::option::Option", "std::ops::ControlFlow"):
+                val = EnumV(rv["adt"], rv.get("vi", 0), [self.operand(o, env, mem) for o in rv["ops"]])
             elif k == "aggregate":
                 ops = [self.operand(o, env, mem) for o in rv["ops"]]
                 val = Tup(ops) if rv["agg"] in ("tuple",) else ("RANGEFROM", ops[0]) if rv.get("adt") in ("std::ops::RangeFrom", "std::ops::Range") else Tup(ops)
@@ -280,6 +291,23 @@ class Interp:
                 r = args[0]
             elif path.endswith("ByteOrder>::write_u16"):
                 v = args[0]; mem[v.arr][v.off] = BV(args[1].bits[8:16]); mem[v.arr][v.off + 1] = BV(args[1].bits[0:8]); r = Tup([])
+            elif path.endswith("as std::ops::Try>::branch") and isinstance(args[0], EnumV):
+                # Ok(v)/Some(v) -> Continue(v); the failing variant breaks out (value-free here)
+                good = 0 if args[0].adt.startswith("std::result::Result") else 1
+                r = EnumV("std::ops::ControlFlow", 0, list(args[0].items)) if args[0].vi == good else EnumV("std::ops::ControlFlow", 1, [args[0]])
+            elif path in ("std::result::Result::<T, E>::map", "std::option::Option::<T>::map") and isinstance(args[0], EnumV):
+                good = 0 if path.startswith("std::result") else 1
+                if args[0].vi != good:
+                    r = args[0]
+                else:
+                    a1 = t["args"][1]
+                    cty = a1.get("ty") or a1.get("place", {}).get("ty") or {}
+                    ck = cty.get("def")
+                    if ck in self.fns:
+                        sub = Interp.__new__(Interp); sub.fns = self.fns; sub.models = self.models
+                        rr_, mem2 = sub.run(ck, [args[1]] + list(args[0].items), mem)
+                        for kk in mem: mem[kk] = mem2[kk]
+                        r = EnumV(args[0].adt, good, [rr_])
             elif path == "std::option::Option::<T>::unwrap_or" and args[0] == "SELF.ext_flags":
                 r = BV([BF.var("E") & BF.var(f"e{i}") for i in range(16)])
             elif path in self.fns or c.get("resolved_local"):
